@@ -229,3 +229,13 @@ Proof.
   { exact (LA 5%nat "asm_main"%string eq_refl eq_refl). }
   rewrite AM. destruct (Nat.ltb_spec 5 (List.length args)); [lia|]. exact RN.
 Qed.
+
+Corollary x86_codegen_correct_int p lc cs n lc' args fuel o :
+  int_frag p = true -> plain_names p = true -> lin_check_prog p = true -> asm_wf cs = None ->
+  x86_compile p lc = Ok (cs, n, lc') ->
+  run_linear fuel p args = o -> defined o = true ->
+  exists outer inner, fst (run_x86 outer inner cs args) = o.
+Proof.
+  intros I P L W X R D. eapply x86_codegen_simulates_int; eauto.
+  left. unfold defined in D. destruct (snd o); try discriminate. eauto.
+Qed.
